@@ -38,3 +38,51 @@ pub fn det() {
         }
     }
 }
+
+/// round trip of single strings through save/open (which characters are lossy?)
+pub fn chars() {
+    use keepass::db::{Entry, Node, Value};
+    for t in ["a;b", "a,b", "a\rb", "a\r\nb", "\r", "a\nb", " lead", "trail ", "a\tb", "\u{85}", "\u{2028}", "a b"] {
+        let mut db = Database::new(Default::default());
+        let mut e = Entry::default();
+        e.fields.insert("Title".into(), Value::Unprotected(t.to_string()));
+        e.fields.insert("P".into(), Value::Protected(t.as_bytes().into()));
+        e.tags.push(format!("x{}y", t));
+        db.root.children.push(Node::Entry(e));
+        db.root.notes = Some(t.to_string());
+        let key = keepass::DatabaseKey::new().with_password("pw");
+        let mut v = Vec::new();
+        db.save(&mut v, key.clone()).unwrap();
+        match Database::open(&mut &v[..], key) {
+            Ok(d) => println!("{:?}: equal={} notes={:?} tags={:?}", t, d == db, d.root.notes, d.root.children.iter().filter_map(|n| if let Node::Entry(e) = n { Some(e.tags.clone()) } else { None }).collect::<Vec<_>>()),
+            Err(e) => println!("{:?}: open error {:?}", t, e),
+        }
+    }
+}
+
+/// F-b probe: the source changes only a member of Times (expiry) at a later time
+pub fn times_only() {
+    use keepass::db::{Entry, Node, Value};
+    let mk = |s: i64| chrono::DateTime::from_timestamp(s, 0).unwrap().naive_utc();
+    let mut anc = Database::new(Default::default());
+    let mut e = Entry::default();
+    e.uuid = uuid::Uuid::from_u128(7);
+    e.fields.insert("Title".into(), Value::Unprotected("t".into()));
+    e.times.set_creation(mk(100));
+    e.times.set_last_modification(mk(100));
+    e.times.set_location_changed(mk(100));
+    anc.root.children.push(Node::Entry(e));
+    anc.root.times.set_last_modification(mk(100));
+    let mut dst = anc.clone();
+    let mut src = anc.clone();
+    if let Node::Entry(e) = &mut src.root.children[0] {
+        e.times.expires = true;
+        e.times.set_expiry(mk(5000));
+        e.times.set_last_modification(mk(200));
+    }
+    let r = dst.merge(&src);
+    println!("merge result: {:?}", r.map(|l| format!("{:?}", l)));
+    if let Node::Entry(e) = &dst.root.children[0] {
+        println!("destination after merge: lm={:?} expires={} expiry={:?}", e.times.get_last_modification(), e.times.expires, e.times.get_expiry());
+    }
+}
